@@ -11,6 +11,8 @@ import Mingus.Props.C07
 import Mingus.Props.C07Forms
 import Mingus.Props.C08
 import Mingus.Props.C09
+import Mingus.Props.C10
+import Mingus.Props.C10Hz
 import Mingus.Tie.C01
 import Mingus.Tie.C02
 import Mingus.Tie.C03
@@ -20,3 +22,4 @@ import Mingus.Tie.C06
 import Mingus.Tie.C07
 import Mingus.Tie.C08
 import Mingus.Tie.C09
+import Mingus.Tie.C10
